@@ -68,3 +68,54 @@ func TestFinding_C20_TypedQueryOutsideIteration(t *testing.T) {
 		t.Fatal("world locked after all queries were finished or closed")
 	}
 }
+
+type R1 struct {
+	ecs.RelationMarker
+	V int64
+}
+type R2 struct {
+	ecs.RelationMarker
+	V int64
+}
+
+// C16: the same calls on a world that was used and Reset and on a brand-new world. The control
+// calls agree; a query naming a relation target for a component its filter does not require depends on
+// the archetypes that the previous history left behind (known finding query-relation-on-foreign-component).
+func TestFinding_C16_ResetWorldVsNewWorld(t *testing.T) {
+	used := ecs.NewWorld(2, 1)
+	idA := ecs.ComponentID[A](used)
+	idR1 := ecs.ComponentID[R1](used)
+	idR2 := ecs.ComponentID[R2](used)
+	tg := used.NewEntity()
+	used.Unsafe().NewEntityRel([]ecs.ID{idA, idR2}, ecs.RelID(idR2, tg)) // leaves an archetype {A, R2}
+	used.Reset()
+	fresh := ecs.NewWorld(2, 1)
+	ecs.ComponentID[A](fresh)
+	ecs.ComponentID[R1](fresh)
+	ecs.ComponentID[R2](fresh)
+	for _, c := range []struct {
+		name string
+		w    *ecs.World
+	}{{"reset-world", used}, {"new-world", fresh}} {
+		w := c.w
+		u := w.Unsafe()
+		x := w.NewEntity()
+		u.NewEntityRel([]ecs.ID{idA, idR1}, ecs.RelID(idR1, x))
+		probe("C16", c.name+" UnsafeFilter(A).Query(Rel(R1)) Count", func() {
+			q := ecs.NewUnsafeFilter(w, idA).Query(ecs.RelID(idR1, x))
+			defer q.Close()
+			_ = q.Count()
+		})
+		probe("C16", c.name+" UnsafeFilter(A,R1).Query(Rel(R1)) Count", func() {
+			q := ecs.NewUnsafeFilter(w, idA, idR1).Query(ecs.RelID(idR1, x))
+			defer q.Close()
+			_ = q.Count()
+		})
+		probe("C16", c.name+" Filter2[A,R1].Query(RelIdx) Count", func() {
+			q := ecs.NewFilter2[A, R1](w).Query(ecs.RelIdx(1, x))
+			defer q.Close()
+			_ = q.Count()
+		})
+		probe("C16", c.name+" NewEntity after everything", func() { w.NewEntity() })
+	}
+}
